@@ -297,6 +297,9 @@ def run_end_event(v, S):
 
 
 def o_c02(v):
+    err = unexpected_exception(v)
+    if err:
+        return err
     for name in v.by:
         if len(v.all(name, 'enter')) > 1:
             return 'body of %s entered %d times' % (name, len(v.all(name, 'enter')))
@@ -316,10 +319,36 @@ def o_c02(v):
     return None
 
 
+def unexpected_exception(v):
+    """a scheduler's run ends by returning, by being cancelled, or -- for a critical scheduler -- by raising
+    TimeoutError or the exception of one of its critical members; anything else coming out of co_run (typically
+    ValueError('Set of Tasks/Futures is empty.') when the scheduler has lost track of a job) is reported"""
+    for S in v.scheds():
+        e = v.first(S, 'exit-raise')
+        if e is None:
+            continue
+        exc = e[4].get('exc')
+        if isinstance(exc, (asyncio.CancelledError, TimeoutError)):
+            continue
+        ok = False
+        for m in v.b.members.get(S, []):
+            if m not in v.b.spec or not v.b.spec[m].get('critical'):
+                continue
+            me = v.first(m, 'exit-raise')
+            if me is None:
+                continue
+            src = me[4].get('exc') if v.is_sched(m) else v.b.objs[m].exc
+            if src is exc:
+                ok = True
+        if not ok:
+            return 'the run of %s ended with an exception that none of its critical jobs raised: %r' % (S, exc)
+    return None
+
+
 def o_c03(v):
     if v.r.hang:
         return 'run does not terminate: ' + v.r.hang
-    return None
+    return unexpected_exception(v)
 
 
 def happened(v, S):
@@ -357,6 +386,9 @@ def happened(v, S):
 
 
 def o_c04(v):
+    err = unexpected_exception(v)
+    if err:
+        return err
     for S in v.scheds():
         cause, tie = happened(v, S)
         if cause is None or tie:
@@ -635,6 +667,9 @@ def clean_run(v, S):
 
 
 def o_c12(v):
+    err = unexpected_exception(v)
+    if err:
+        return err
     for S in v.scheds():
         sp = v.b.spec[S]
         begin = v.first(S, 'enter')
